@@ -38,6 +38,10 @@ var badDocs = []struct{ kind, text string }{
 	{"2020-prefixItems", `{"$schema":"https://json-schema.org/draft/2020-12/schema","prefixItems":[{"type":"string"}],"items":false,"dependentSchemas":{"v":{"required":["n"]}},"unevaluatedProperties":false}`},
 	{"draft07-ref-beside-dynamicRef", `{"$schema":"http://json-schema.org/draft-07/schema#","definitions":{"x":{"$dynamicAnchor":"x"},"y":{"type":["object","string","null","number","array","boolean"]}},"properties":{"v":{"$ref":"#/definitions/y","$dynamicRef":"#x"},"n":{"$ref":"#/definitions/y","$dynamicRef":"#x"},"m":{"$ref":"#/definitions/y","$dynamicRef":"#/definitions/y"}},"$ref":"#/definitions/y","$dynamicRef":"#x"}`},
 	{"2020-ref-beside-dynamicRef", `{"$schema":"https://json-schema.org/draft/2020-12/schema","$defs":{"x":{"$dynamicAnchor":"x"},"y":{}},"properties":{"v":{"$ref":"#/$defs/y","$dynamicRef":"#x"},"n":{"$ref":"#/$defs/y","$dynamicRef":"#x"}},"$ref":"#/$defs/y","$dynamicRef":"#x"}`},
+	{"duplicate-key-not", `{"not":{"dependencies":{"a":{}},"properties":{"q":{}}},"properties":{"v":{"const":"X"}},"not":{"dependencies":{"a":["b"]},"properties":{"q":false}}}`},
+	{"duplicate-key-items", `{"$schema":"http://json-schema.org/draft-07/schema#","items":[{"type":"string"}],"properties":{"v":{"const":"X"}},"items":{"type":"integer"}}`},
+	{"duplicate-key-defs", `{"$defs":{"a":{"$anchor":"x","type":"string"}},"properties":{"n":{"$ref":"#x"}},"$defs":{"a":{"type":["integer","null"],"enum":[1]},"b":{"$anchor":"x"}}}`},
+	{"duplicate-key-type", `{"type":"string","properties":{"v":{"const":"X"}},"type":["object","null"],"if":{"const":1},"if":{"type":["string"],"type":"object"}}`},
 	{"empty", `{}`},
 	{"boolean-false", `false`},
 	{"null", `null`},
@@ -62,7 +66,7 @@ func driveC10(c *Ctx) {
 				b := pick(c, badDocs)
 				if c.W(3) == 0 {
 					// the documents that mix drafts are the ones whose handling spans two code sites
-					b = pick(c, badDocs[len(badDocs)-9:len(badDocs)-3])
+					b = pick(c, badDocs[len(badDocs)-13:len(badDocs)-7])
 				}
 				bad[i] = b.kind
 				u.Docs[i].Text = b.text
@@ -85,6 +89,25 @@ func driveC10(c *Ctx) {
 	c.CheckOp("Unmarshal", r)
 	if r.Panicked || uerr != nil {
 		return
+	}
+	if !deep {
+		// One Schema variable reused for document after document (a Loader that re-reads into the
+		// value it keeps does this): decoding into a used value may merge, it must not panic, and
+		// what comes out can be marshaled or gives an error.
+		var reused jsonschema.Schema
+		for _, d := range u.Docs {
+			text := d.Text
+			r := Op(func() { json.Unmarshal([]byte(text), &reused) })
+			c.CheckOp("Unmarshal into a used Schema value", r)
+			r = Op(func() { json.Marshal(&reused) })
+			c.CheckOp("Marshal of a Schema value decoded into twice", r)
+		}
+		for k := 0; k < 3; k++ {
+			text := pick(c, badDocs).text
+			r := Op(func() { json.Unmarshal([]byte(text), &reused) })
+			c.CheckOp("Unmarshal into a used Schema value", r)
+		}
+		c.Probe("schema-variable-reused")
 	}
 	budget := int64(DefaultBudget)
 	if deep {
